@@ -383,6 +383,11 @@ fn lane_rest(shard: u64, nshards: u64, seed: u64, cases: u64) -> u64 {
                                     m.gates %= 6;
                                     m.data.truncate(m.gates as usize * (m.word as usize / 8));
                                 }
+                                // the summariser is specified for coded fields within their documented
+                                // domains (C14): the volume block names a documented pattern
+                                if let enc::Block::Vol(v) = b {
+                                    v.vcp = [12u16, 31, 35, 112, 212, 215][(i as usize + j) % 6];
+                                }
                             }
                             spec.hdr.date = [1u16, 65_535, 19_000][(i as usize + j) % 3];
                             spec.hdr.status = (i as usize / 6 + j) as u8 % 6;
